@@ -249,6 +249,21 @@ func run(cfg runConfig) (*runResult, error) {
 			res.errors = append(res.errors, fmt.Sprintf("contract %s (%s) binds to no function", k, c.Source))
 			continue
 		}
+		if cfg.prop == "C17" {
+			// secret-independence contracts: information-flow obligations only
+			if !c.CT {
+				continue
+			}
+			res.funcs = append(res.funcs, k)
+			pkg, rel := e.funcKey(fn)
+			e.curFunc = pkg[strings.LastIndex(pkg, "/")+1:] + "." + rel
+			if fn.Blocks == nil {
+				res.errors = append(res.errors, e.curFunc+": no body in this build configuration")
+				continue
+			}
+			e.obls = append(e.obls, e.checkCT(fn, c)...)
+			continue
+		}
 		res.funcs = append(res.funcs, k)
 		if err := e.verifyFunction(fn, c); err != nil {
 			res.errors = append(res.errors, err.Error())
